@@ -37,6 +37,16 @@ def shaped(fn, k: int):
     return fn
 
 
+class Later:
+    """An awaitable that is neither a coroutine nor a future."""
+
+    def __init__(self, coro):
+        self._coro = coro
+
+    def __await__(self):
+        return self._coro.__await__()
+
+
 def failure(msg: str, k: int) -> BaseException:
     """Handlers and jobs fail in the ways real ones do: with and without a message (a bare ``raise RuntimeError``, a
     failed ``assert``, the ``TimeoutError`` of ``asyncio.wait_for`` carry no arguments)."""
@@ -123,7 +133,21 @@ class BtRun:
                 # a second source built from the *same list object* as an earlier one: each must deliver all of it
                 evs = lists[src["alias_of"]]
                 self.src_events[si] = list(self.src_events[src["alias_of"]])
-            if src.get("producer"):
+            if src.get("producer") and si % 2 == 1 and src.get("alias_of") is None:
+                # a producer that queues its events when its main() starts (nothing is preloaded)
+                class Feeder(event.Producer):
+                    def __init__(self, pending):
+                        self.pending = pending
+                        self.source = None
+
+                    async def main(self):
+                        for e_ in self.pending:
+                            self.source.push(e_)
+                feeder = Feeder(list(evs))
+                fsrc = event.FifoQueueEventSource(producer=feeder)
+                feeder.source = fsrc
+                self.sources.append(fsrc)
+            elif src.get("producer"):
                 self.sources.append(event.FifoQueueEventSource(producer=event.Producer(), events=evs))
             else:
                 self.sources.append(event.FifoQueueEventSource(events=evs))
@@ -210,6 +234,15 @@ class BtRun:
                     run.trace.add("start", "job", jid, None, when, run._now())
                     run.trace.add("end", "job", jid, None, when, run._now())
                     raise failure(f"job {jid} fails while being called", jid + 1)
+                # whatever awaitable a plain callable returns is awaited: a coroutine, a future (gather, a task) or any
+                # object with __await__
+                shape = jid % 4
+                if shape == 1:
+                    return asyncio.gather(job())
+                if shape == 2:
+                    return asyncio.ensure_future(job())
+                if shape == 3:
+                    return Later(job())
                 return job()
             return plain_job
         return shaped(job, jid + 2)
@@ -227,7 +260,7 @@ class BtRun:
             eid = getattr(e, "eid", None)
             tr.add("start", kind, hid, eid, S(e.when), run._now())
             for _ in range(sub.get("steps", 0)):
-                await asyncio.sleep(0)
+                await asyncio.sleep(sub.get("sleep", 0))
                 tr.add("resume", kind, hid, eid, S(e.when), run._now())
             for push in sub.get("push", []):
                 if push["on"] == n:
@@ -267,6 +300,8 @@ class BtRun:
 
     def run(self):
         import logging
+        if any(sub.get("sleep") for sub in self.sc["subscriptions"]):
+            return self._run_virtual()
         loop = asyncio.new_event_loop()
         asyncio.set_event_loop(loop)
         f0 = logging.getLogRecordFactory()
@@ -289,6 +324,23 @@ class BtRun:
             finally:
                 loop.close()
                 asyncio.set_event_loop(None)
+        return self
+
+    def _run_virtual(self):
+        """Same run under the virtual-time loop: handlers may stay suspended for (virtual) seconds."""
+        import logging
+        from vf import vclock
+        f0 = logging.getLogRecordFactory()
+        try:
+            with vclock.virtual_time(patch_time_modules=False) as loop:
+                self.build()
+                try:
+                    loop.run_until_complete(asyncio.wait_for(self.d.run(stop_signals=[]), timeout=10 ** 7))
+                    self.outcome = "returned"
+                except (Exception, asyncio.CancelledError) as ex:
+                    self.outcome = f"raised {type(ex).__name__}: {ex}"
+        finally:
+            logging.setLogRecordFactory(f0)
         return self
 
 
